@@ -209,6 +209,7 @@ type eventList struct {
 	seqs    sequenceNumSlice
 	events  map[sequenceNum]*event
 	lastSeq sequenceNum
+	hasLast bool // hasLast is true once lastSeq holds a delivered sequence (0 is a valid sequence number).
 	maxSize int
 	timeout time.Duration
 }
@@ -231,6 +232,24 @@ func (l *eventList) remove() {
 	}
 }
 
+// lostBefore returns the number of sequence numbers that were skipped between
+// the last in-order event and seq (rollover aware) and records seq as the last
+// in-order event. Late or duplicate events are not ahead of the last in-order
+// event, so they neither count as a loss nor move lastSeq backwards.
+func (l *eventList) lostBefore(seq sequenceNum) int {
+	if !l.hasLast {
+		l.hasLast = true
+		l.lastSeq = seq
+		return 0
+	}
+	if !(sequenceNumSlice{l.lastSeq, seq}).Less(0, 1) {
+		return 0
+	}
+	lost := int(seq - l.lastSeq - 1)
+	l.lastSeq = seq
+	return lost
+}
+
 // Clear removes all events from the list and returns the events and the number
 // of list events.
 func (l *eventList) Clear() ([]*event, int) {
@@ -250,10 +269,7 @@ func (l *eventList) Clear() ([]*event, int) {
 		seq = l.seqs[0]
 		event := l.events[seq]
 
-		if l.lastSeq > 0 {
-			lost += int(seq - l.lastSeq - 1)
-		}
-		l.lastSeq = seq
+		lost += l.lostBefore(seq)
 		evicted = append(evicted, event)
 		l.remove()
 	}
@@ -309,10 +325,7 @@ func (l *eventList) CleanUp() ([]*event, int) {
 		event := l.events[seq]
 
 		if event.complete || size > l.maxSize || event.IsExpired() {
-			if l.lastSeq > 0 {
-				lost += int(seq - l.lastSeq - 1)
-			}
-			l.lastSeq = seq
+			lost += l.lostBefore(seq)
 			evicted = append(evicted, event)
 			l.remove()
 			continue
